@@ -42,9 +42,12 @@ pub fn gen_flow(
             }
             let raises = raises.into_iter().map(Result::unwrap).collect();
 
-            let raises_before = env.raises_caught.clone();
-            let outer_env = generate(expr_or_stmt, &env.raises_caught(&raises), ctx, constr)?
-                .raises_caught(&raises_before);
+            // exceptions are only caught for the handled expression or statement, not after it
+            let raises_caught = env.raises_caught.clone();
+            let outer_env = Environment {
+                raises_caught,
+                ..generate(expr_or_stmt, &env.raises_caught(&raises), ctx, constr)?
+            };
 
             constrain_cases(ast, &None, cases, &outer_env, ctx, constr)
         }
